@@ -20,6 +20,8 @@ pub struct ProcSpec {
     pub collect_files: bool,
     /// keep stdin attached to the given file name inside the scratch dir (instead of a pipe)
     pub stdin_file: Option<String>,
+    /// do not re-run a timed-out case with a doubled budget
+    pub no_confirm: bool,
 }
 
 #[derive(Clone, Debug, Default)]
@@ -255,7 +257,7 @@ pub fn run_many(specs: &[ProcSpec], par: usize) -> Vec<ProcOut> {
                     }
                     let dir = root.join(format!("p{run_id}.{t}"));
                     let mut o = run_one(&specs[i], &dir);
-                    if o.timed_out {
+                    if o.timed_out && !specs[i].no_confirm {
                         // confirm in isolation with a doubled budget
                         let mut s2 = specs[i].clone();
                         s2.timeout_ms *= 2;
